@@ -183,7 +183,43 @@ def _matches(prog, body, op, sink):
     return False
 
 
-def _template_regex(prog, body, fs):
+def _ph(k, fld=""):
+    """placeholder for the text of parameter k (or of its field `fld`): substituted at the call sites of the helper"""
+    return "\x02%d:%s\x03" % (k, fld)
+
+
+_PH_RE = re.compile("\x02(\\d+):([A-Za-z0-9_]*)\x03")
+
+
+def _sfilter(val):
+    """restrict multiply-assigned string locals to the assignment the explored path took (cells ('S', local))"""
+    if not val:
+        return None
+
+    def f(l, ds):
+        k = val.get(("S", l))
+        if k is None:
+            return ds
+        keep = [d for d in ds if (d.bb, d.si) == k]
+        return keep or ds
+
+    return f
+
+
+def _param_placeholders(body, op, val=None):
+    """the operand is (a field of) a parameter of a plain function on every origin: the placeholders, else None"""
+    if body.kind == "closure":
+        return None
+    os_ = origins(body, op, transparent=_REF_T, def_filter=_sfilter(val))
+    if not os_ or not all(o.kind == "param" and len(o.fields) <= 1 for o in os_):
+        return None
+    r = None
+    for o in sorted(os_, key=lambda o: (o.data, tuple(str(f) for f in o.fields))):
+        r = alt(r, _ph(o.data, str(o.fields[0]) if o.fields else ""))
+    return r
+
+
+def _template_regex(prog, body, fs, val=None):
     out = ""
     for p in fs.pieces:
         if p[0] == "lit":
@@ -192,11 +228,11 @@ def _template_regex(prog, body, fs):
             a = fs.args[p[1]] if p[1] < len(fs.args) else None
             if a is None:
                 raise Undecided("format argument not resolved at %s" % fs.site.loc())
-            out = cat(out, _display_regex(prog, body, a[1], fs.site))
+            out = cat(out, _display_regex(prog, body, a[1], fs.site, val))
     return out
 
 
-def _display_regex(prog, body, op, site):
+def _display_regex(prog, body, op, site, val=None):
     """what Display prints for the operand"""
     k = op_const(op)
     if k is not None and "str" in k:
@@ -204,7 +240,20 @@ def _display_regex(prog, body, op, site):
     p = op_place(op)
     if p is None:
         raise Undecided("displayed operand at %s" % site.loc())
-    os_ = origins(body, op, transparent=_REF_T)
+    os_ = origins(body, op, transparent=_REF_T, def_filter=_sfilter(val))
+    ty0 = body.local_ty(p["l"])
+    for e in p["p"]:
+        if isinstance(e, dict) and "ty" in e:
+            ty0 = e["ty"]
+    t0 = ty0.replace("&", "").replace("mut ", "").strip()
+    if t0.startswith("core::fmt::Arguments"):
+        fs2 = _format_site_for(body, op)
+        if fs2 is not None:
+            return _template_regex(prog, body, fs2, val)
+    if t0 == "str" or t0.startswith("core::fmt::Arguments"):
+        ph = _param_placeholders(body, op, val)
+        if ph is not None:
+            return ph
     consts = [o for o in os_ if o.kind == "const" and "str" in o.data]
     others = [o for o in os_ if not (o.kind == "const" and "str" in o.data)]
     if consts and not others:
@@ -397,6 +446,17 @@ class Cells:
                 self.bools.add(l)
         self.upvars = {u["field"] for u in body.upvars if u.get("by_ref") and u.get("ty") == "bool"} if body.kind == "closure" else set()
         self.enums = {l for l in range(1, len(body.locals)) if body.local_ty(l).startswith("core::iter::adapters::enumerate::Enumerate<")}
+        # string references assigned on several paths (`let sep = if first { a } else { b }`): the path decides which
+        self.strs = {l for l in range(1, len(body.locals)) if body.local_ty(l).replace("&", "").strip() == "str" and len([d for d in body.defs.get(l, []) if d.si is not None]) > 1}
+
+    def enum_index_state(self, op, val):
+        """'first' / 'later' / None for an operand holding the index produced by an enumerate() iterator's next()"""
+        for o in origins(self.body, op, transparent=()):
+            if o.kind == "call" and o.site is not None and [str(f) for f in o.fields][-2:] == ["0", "0"]:
+                e = self.enum_of_next(o.site)
+                if e is not None:
+                    return val.get(("E", e), "init")
+        return None
 
     def upvar_of_place(self, p):
         """field of the by-ref bool upvar a place `(*tmp)` denotes"""
@@ -520,7 +580,7 @@ def _emission(prog, body, cells, s, sink, val, depth):
         fs = _format_site_for(body, args[1])
         if fs is None:
             raise Undecided("template of write_fmt at %s" % s.loc())
-        return [(_template_regex(prog, body, fs), val)]
+        return [(_template_regex(prog, body, fs, val), val)]
     if d in ("std::io::Write::write_all", "alloc::string::String::push_str", "core::fmt::Write::write_str") and hit == [0]:
         return [(string_lang(prog, body, args[1], s, depth + 1), val)]
     if d == "alloc::string::String::push" and hit == [0]:
@@ -546,10 +606,52 @@ def _emission(prog, body, cells, s, sink, val, depth):
                         init[("LEN", k2)] = len(o.site.node["rv"]["ops"])
         m = sink_matrix(prog, tgt, ("param", hit[0] + 1), init, depth=depth + 1)
         r = None
-        for _, rr in m.items():
+        for _, rr in sorted(m.items()):
             r = alt(r, rr)
-        return [(r, val)]
+        return [(_subst_placeholders(prog, body, s, tgt, r, val), val)]
     raise Undecided("sink handed to %s at %s" % (d, s.loc()))
+
+
+def _const_item_field(prog, body, item, fld):
+    c = prog.consts.get((body.target, item)) or prog.consts.get(("lib", item))
+    if c is None:
+        return None
+    for i, f in enumerate(c.get("fields") or []):
+        if f.get("name") == fld or str(i) == fld:
+            return f.get("str")
+    return None
+
+
+def _subst_placeholders(prog, body, s, tgt, r, val):
+    """replace the parameter placeholders of a helper's language by what this call site hands over"""
+    if r is None or "\x02" not in r:
+        return r
+    args = s.node.get("args") or []
+
+    def repl(m):
+        k, fld = int(m.group(1)), m.group(2)
+        if k - 1 >= len(args):
+            raise Undecided("placeholder argument at %s" % s.loc())
+        a = args[k - 1]
+        if not fld:
+            return "(?:%s)" % _display_regex(prog, body, a, s, val)
+        # a field of a struct handed over by reference: a constant item, or a parameter of this function in turn
+        res = None
+        for o in origins(body, a, transparent=_REF_T, def_filter=_sfilter(val)):
+            if o.kind == "const" and o.data.get("item"):
+                v = _const_item_field(prog, body, o.data["item"], fld)
+                if v is None:
+                    raise Undecided("field %s of constant %s" % (fld, o.data["item"]))
+                res = alt(res, lit(v))
+            elif o.kind == "param" and not o.fields and body.kind != "closure":
+                res = alt(res, _ph(o.data, fld))
+            else:
+                raise Undecided("struct argument of %s at %s" % (tgt.path, s.loc()))
+        if res is None:
+            raise Undecided("struct argument of %s at %s" % (tgt.path, s.loc()))
+        return "(?:%s)" % res
+
+    return _PH_RE.sub(repl, r)
 
 
 def _closure_star(prog, body, clo, sink_f, cmap, val, depth):
@@ -652,10 +754,12 @@ def sink_matrix(prog, body, sink, init=None, end_bb=None, depth=0):
                 add(node, fin, "")
                 continue
             # statements
-            for st in body.blocks[bb]["stmts"]:
+            for si_, st in enumerate(body.blocks[bb]["stmts"]):
                 if st["k"] != "assign":
                     continue
                 dst = st["dst"]
+                if not dst["p"] and dst["l"] in cells.strs:
+                    val[("S", dst["l"])] = (bb, si_)
                 if not dst["p"] and st["rv"]["k"] == "use":
                     q = op_place(st["rv"]["ops"][0])
                     if q is not None and not q["p"] and ("IT", q["l"]) in val:
@@ -727,6 +831,14 @@ def sink_matrix(prog, body, sink, init=None, end_bb=None, depth=0):
                     tgt = [tb for x, tb in t["targets"] if x == ("1" if known == "S" else "0")]
                     if tgt:
                         succs = [sc for sc in succs if sc in tgt]
+                elif p is not None and not p["p"] and body.local_ty(p["l"]) == "usize" and cells.enums and cells.enum_index_state(t["discr"], val) in ("first", "later"):
+                    # `match i { 0 => .., _ => .. }` on the index of an enumerate() iterator
+                    stt = cells.enum_index_state(t["discr"], val)
+                    zero = [tb for x, tb in t["targets"] if x == "0"]
+                    if stt == "first":
+                        succs = [sc for sc in succs if sc in (zero or [t["otherwise"]])]
+                    elif zero:
+                        succs = [sc for sc in succs if sc not in zero or sc == t["otherwise"]]
                 elif p is not None and not p["p"] and body.local_ty(p["l"]) == "bool":
                     v = cellexpr(cells, t["discr"], val)
                     zero = [tb for x, tb in t["targets"] if x == "0"]
@@ -764,6 +876,8 @@ def sink_language(prog, body, sink, end_bb=None, depth=0, init=None):
     r = None
     for _, rr in sorted(m.items()):
         r = alt(r, rr)
+    if depth == 0 and r is not None and "\x02" in r:
+        raise Undecided("the text written by %s depends on what its callers hand over" % body.path)
     return r
 
 
